@@ -234,6 +234,30 @@ def build(rng, name, opts=None):
             "",
         ]
         feats.append("dict-with-class-field")
+    if chance(0.3, "optional-union"):
+        # a position that sees two unrelated types and None
+        L += [
+            "def coerce(v, fallback=None):",
+            "    return fallback if v is None else v",
+            "",
+            "",
+        ]
+        feats.append("optional-union")
+    if chance(0.3, "class-in-compound-statement"):
+        # classes that exist only inside a module-level compound statement (an optional accelerator with a pure-Python fallback)
+        twin = rng.random() < 0.5
+        if twin:
+            L += ["if hasattr(functools, 'no_such_thing'):", "    class Encoder:", "        def encode(self, obj, width=0):", "            return repr(obj)", "else:"]
+        else:
+            L += ["try:", "    from _vf_no_such_speedups import Encoder", "except ImportError:"]
+        L += [
+            "    class Encoder:",
+            "        def encode(self, obj, width=0):",
+            "            return str(obj).rjust(width)",
+            "",
+            "",
+        ]
+        feats.append("class-in-compound-statement" + ("+twin" if twin else ""))
     if chance(0.4, "posonly-star"):
         L += [
             "def clamp(v, /, *, lo=0):",
@@ -351,6 +375,10 @@ def build(rng, name, opts=None):
         L += ["    out.append(settings({'a': 1, 'b': 2}))", "    out.append(settings({'a': 1}))"]
     if "def frame(" in src:
         L += ["    out.append(frame({'shape': c, 'pad': 2}))"]
+    if "def coerce(" in src:
+        L += ["    out.append(coerce(1))", "    out.append(coerce('s'))", "    out.append(coerce(None))", "    out.append(coerce(None, 2.5))"]
+    if "class Encoder" in src:
+        L += ["    out.append(Encoder().encode(1, 3))", "    out.append(Encoder().encode('x'))"]
     if "def clamp(" in src:
         L += ["    out.append(clamp(3, lo=5))", "    out.append(join('a', 'b', sep='-'))"]
     if "def tag_of(" in src:
